@@ -1,5 +1,27 @@
 import KrroodVerif.Sexp
+import KrroodVerif.Model.Eql
+import KrroodVerif.Model.EqlTrace
+import KrroodVerif.Drive.EqlParse
 namespace KrroodVerif.Drive.C10
-/-- stub: replaced when the model for C10 is built -/
-def run (_ : Sexp) : String := "model=unimplemented\tspec=unimplemented\ttrig="
+open KrroodVerif KrroodVerif.Eql KrroodVerif.Drive.EqlParse
+
+def sortNat (xs : List Nat) : List Nat :=
+  xs.foldl (fun acc x => let (a, b) := acc.span (· ≤ x); a ++ [x] ++ b) []
+
+/-- `n=<rows> k0:[p_v1,p_v2,…] k1:[…] …` — per number of consumed results, the number of elements pulled from each
+variable's domain (variables in increasing id order), as the demand-driven trace model predicts -/
+def run (s : Sexp) : String :=
+  match parseCase s with
+  | none => "error=bad-case"
+  | some (w, q) =>
+    let evs := traceQuery w q.toQuery
+    let n := (rowsOf evs).length
+    let vars := sortNat (w.doms.map (·.1))
+    let line := fun (k : Nat) =>
+      let pre := uptoRow k evs
+      s!"k{k}:" ++ showList (vars.map fun v => toString (pulled v pre))
+    let body := " ".intercalate ((List.range (n + 1)).map line)
+    let full := "end:" ++ showList (vars.map fun v => toString (pulled v evs))
+    let out := if hasErr evs then "exc" else s!"n={n} {body} {full}"
+    s!"model={out}\tspec={out}\ttrig=\trows={" ".intercalate ((rowsOf evs).map showRow)}"
 end KrroodVerif.Drive.C10
